@@ -1,86 +1,147 @@
 """C18 -- smoothed min/max/abs, friction regularisation, smoothed ramp and segment parameter.
 
-Level: proof (identities over the reals).  Every function is lowered from its source to a piecewise
-rational function (pieces = conjunctions of comparisons, values = exact rational functions).  For the
-arrangement of switching surfaces every cell (breakpoints, open intervals between them, both ends) is
-visited at representative rational points -- a finite, exhaustive set of orderings -- and in each cell the
-*symbolic* value of the active piece must satisfy the specification identity:
+Level: proof (identities over the reals).  Every function is *abstractly interpreted* from its source to a piecewise
+rational function (rules/C18_pw.py: pieces = conjunctions of comparisons, values = exact rational functions); the
+interpreter inlines helper functions / nested defs / lambdas with Python's argument binding, follows temporaries, tuple
+unpacking, guard clauses and every selection idiom (where / if_then_else / lax.cond / select / IfExp / minimum / maximum /
+clip / abs / sign), so the result does not depend on how the function is spelled.  Parameters are located by position in
+the public signature, nothing else by name.  For the arrangement of switching surfaces of the implementation *and* of the
+specification every cell (breakpoints, open intervals between them, both ends) is visited at representative rational points
+-- a finite, exhaustive set of orderings -- and in each cell the *symbolic* value of the active piece must satisfy the
+specification identity (on a surface: after substituting the surface equation):
 
-  min_base   outside |x-y| >= eps : value == plain minimum;
+  min_base   outside |x-y| >= eps : value == plain minimum, and it is *selected* from the arguments (bit-exact in floating
+             point; a value recomputed by rounded arithmetic that absorbs the other argument is refuted);
              inside               : minimum - value == (|x-y| - eps)^2 / (4 eps)   (so value <= min, gap <= eps/4);
              symmetric in (x, y); C0 and C1 across every switching surface;
-  max, abs   are -min_base(-x,-y,eps) and -min_base(-x,x,eps);
+  min, max, abs   the same identities for min(x,y), the mirrored ones for max(x,y) and |x| = max(x,-x);
   friction   inner arm t^2/(2 sReg), outer arm t - sReg/2 in t = |s|; C0/C1 at t = sReg; non-negativity,
              convexity and the Coulomb upper bound by certificate identities;
-  zmax, smooth_linear   C0/C1 across their switches and the stated outer arms.
-Rounding is not modelled; assumes eps > safeTol, sReg > 0, 0 < l < 1/2.
+  zmax, smooth_linear   C0/C1 across their switches and the stated arms;
+  smooth_distance   in every orientation case its value is c * smin(c*a, c*b, w) with c = +-1, one pair (a, b) and a width
+             w >= 0 (smin kept symbolic, the orientation sign enumerated by np.sign -> {-1, 0, 1}).
+Rounding is modelled only for the exactness obligation; assumes eps > safeTol, sReg > 0, 0 < l < 1/2.
 """
 from __future__ import annotations
 
 import ast
-import copy
 from fractions import Fraction
 
-from optilint.model import dotted
+from optilint.model import namedtuple_fields
 from optilint.core import Incomplete
-from optilint.expr import Algebra, NotPolynomial, Rat, Poly
-from optilint.piecewise import PiecewiseEval, PW, solve_linear, solve_square, breakpoints, cell_samples
-from .common import src, same, canon
+from optilint.expr import Algebra, NotPolynomial, Rat, Poly, simplify
+from optilint.piecewise import PW, solve_linear
+from .C18_pw import SymEval, TupleVal, cells, surfaces, exact_eval, exactness, term_str, sign_of
 
 LEVEL = "proof"
 RULE_TEXT = ("obligations = (function x cell of its switching arrangement x specification identity) + "
              "(adjacent cells x C0/C1 identity on the shared surface) + certificate identities; every obligation is an "
-             "equality of exact rational normal forms")
-EXPLANATION = ("Static extraction of piecewise rational functions from SmoothFunctions.py, contact/Friction.py, "
-               "contact/MortarContact.py and proof of their specification by normal-form identities in every cell of the "
-               "switching arrangement (exhaustive finite set of orderings). Real arithmetic; rounding not modelled.")
+             "equality of exact rational normal forms of the abstractly interpreted source")
+EXPLANATION = ("Abstract interpretation (helpers inlined, idiom-independent) of SmoothFunctions.py, contact/Friction.py, "
+               "contact/MortarContact.py, contact/EdgeCpp.py into piecewise rational functions and proof of their specification by "
+               "normal-form identities in every cell of the switching arrangement (exhaustive finite set of orderings). "
+               "Real arithmetic; rounding modelled only for 'the hard minimum is selected, not recomputed'.")
 
 SF = "optimism.SmoothFunctions"
 FR = "optimism.contact.Friction"
 MC = "optimism.contact.MortarContact"
+EC = "optimism.contact.EdgeCpp"
+
+
+def _guarded(fn):
+    """algebra the engine cannot carry out (non-polynomial form, division by a vanishing sample) = not decided, never an error"""
+    def run_rule(ctx):
+        try:
+            return fn(ctx)
+        except (NotPolynomial, ZeroDivisionError, RecursionError) as ex:
+            raise Incomplete(f"{fn.__name__}: {type(ex).__name__}: {ex}")
+    run_rule.__name__ = fn.__name__
+    return run_rule
 
 
 def run(ctx):
     for m in (SF, FR, MC):
         ctx.need_module(m)
-    ctx.guard(min_base, ctx)
-    ctx.guard(max_abs, ctx)
-    ctx.guard(zmax, ctx)
-    ctx.guard(smooth_linear, ctx)
-    ctx.guard(friction, ctx)
-    ctx.guard(users, ctx)
-    ctx.trust("exact rational arithmetic (fractions.Fraction); normal forms of multivariate rational functions; d sqrt(E) = dE/(2 sqrt E)")
-    ctx.assume("eps > safeTol (= 1e-14), sReg > 0, 0 < l < 1/2, real arithmetic (no rounding)")
+    for rule_fn in (min_base, max_abs, zmax, smooth_linear, friction, users):
+        ctx.guard(rule_fn, ctx)
+    ctx.trust("exact rational arithmetic (fractions.Fraction); normal forms of multivariate rational functions; d sqrt(E) = dE/(2 sqrt E); "
+              "inlining of calls by Python's argument binding; IEEE: selection, negation, *(+-1), +0 are exact")
+    ctx.assume("eps > safeTol (= 1e-14), sReg > 0, 0 < l < 1/2, smoothingTol > 0, real arithmetic (no rounding) except for the exactness obligations")
 
 
-def _pts(names, values):
-    out = []
-    for combo in values:
-        out.append(dict(zip(names, combo)))
-    return out
+# ------------------------------------------------------------------ shared machinery
+
+def _anchor(ctx, qual):
+    """the function a public name denotes: a def of that module, or whatever the module binds the name to (a function
+    imported from another module, a lambda, a jit-wrapped function)"""
+    sc = ctx.repo.find(qual)
+    if sc is not None and sc.is_function():
+        ctx.touch(sc)
+        return sc
+    modname, _, fname = qual.partition(":")
+    m = ctx.repo.module(modname)
+    if m is not None and fname and "." not in fname:
+        from optilint.model import FuncVal
+        fs = {v.scope for v in ctx.repo.resolve(ast.Name(id=fname, ctx=ast.Load()), m.scope) if isinstance(v, FuncVal)}
+        if len(fs) == 1:
+            sc = fs.pop()
+            ctx.touch(sc)
+            return sc
+    raise Incomplete(f"anchor {qual} not found in the source tree")
 
 
-def _subst_many(A, r: Rat, mapping):
-    # simultaneous substitution through temporaries
-    tmp = {k: f"__tmp_{i}" for i, k in enumerate(mapping)}
-    for k, t in tmp.items():
-        r = A.subst(r, k, A.atom(t))
-    for k, t in tmp.items():
-        r = A.subst(r, t, mapping[k])
-    return r
+def _lower(ctx, qual, what, **kw):
+    """(scope, interpreter, piecewise value, parameter names) of the function `qual`"""
+    sc = _anchor(ctx, qual)
+    ev = SymEval(ctx.repo, Algebra(), on_inline=ctx.touch, **kw)
+    try:
+        pw = ev.run(sc)
+    except NotPolynomial as ex:
+        raise Incomplete(f"{what} cannot be lowered to a piecewise rational function: {ex}")
+    if not isinstance(pw, PW):
+        raise Incomplete(f"{what} does not return one scalar value")
+    return sc, ev, pw, sc.params()
 
 
-def _glue(ctx, rule, sc, pe, pw, var, others_points, deriv_vars, nonneg=False, label=""):
+def _understood(ev, *rats):
+    """False when a compared value contains an atom standing for a call the interpreter could not read"""
+    for r in rats:
+        if r is not None and any(a in ev.opaque for a in r.atoms()):
+            return False
+    return True
+
+
+def _decide(ctx, ev, rule, ok, sc, construct, detail, bad_detail, rats=()):
+    if ok is False and not _understood(ev, *rats):
+        culprit = sorted(a for r in rats if r is not None for a in r.atoms() if a in ev.opaque)[0]
+        return ctx.undecided(rule, sc, None, construct=construct, detail=f"the value goes through `{culprit}`, which the interpreter cannot read")
+    return ctx.decide(rule, ok, sc, None, construct=construct, detail=detail, bad_detail=bad_detail)
+
+
+def _fl(pt):
+    return {k: float(v) for k, v in pt.items()}
+
+
+def _active(ctx, ev, rule, sc, pw, p, where):
+    act = ev.active(pw, p)
+    if len(act) > 1 and all(ev.A.equal(q.value, act[0].value) and q.term == act[0].term for q in act[1:]):
+        act = act[:1]          # overlapping pieces that carry the same value
+    if len(act) != 1:
+        ctx.undecided(rule, sc, None, construct=f"cell {where}", detail=f"{len(act)} pieces of the interpreted function are active at {p}")
+        return None
+    return act[0]
+
+
+def _glue(ctx, rule, sc, pe, pw, var, others_points, deriv_vars, nonneg=False, label="", candidates=()):
     """C0/C1 across every switching surface reachable by moving `var`."""
     A = pe.A
-    allb = breakpoints(pe, pw, var, nonneg)
-    bps = [(a, v) for (a, v) in allb if v is not None]
+    surf = surfaces(pe, pw, var, nonneg, candidates)
     n = 0
     seen = set()
     # surfaces that cannot be solved symbolically: locate them numerically and look for a jump (witness search);
     # a jump found in the extracted formula refutes continuity, no jump leaves the obligation undecided
-    for (a, v) in allb:
-        if v is not None:
+    for (a, roots) in surf:
+        if roots is not None:
             continue
         for pt in others_points:
             f = lambda x, pt=pt: A.eval(a.diff, dict(pt, **{var: x}))
@@ -102,7 +163,7 @@ def _glue(ctx, rule, sc, pe, pw, var, others_points, deriv_vars, nonneg=False, l
             d = 1e-6 * max(1.0, abs(root))
             pl = pe.active(pw, dict(pt, **{var: root - d}))
             ph = pe.active(pw, dict(pt, **{var: root + d}))
-            if len(pl) == 1 and len(ph) == 1 and pl[0] is not ph[0]:
+            if len(pl) == 1 and len(ph) == 1 and pl[0] is not ph[0] and _understood(pe, pl[0].value, ph[0].value):
                 v0 = A.eval(pl[0].value, dict(pt, **{var: root}))
                 v1 = A.eval(ph[0].value, dict(pt, **{var: root}))
                 if abs(v0 - v1) > 1e-6 * max(1.0, abs(v0)):
@@ -112,354 +173,693 @@ def _glue(ctx, rule, sc, pe, pw, var, others_points, deriv_vars, nonneg=False, l
                     break
         else:
             ctx.undecided(rule, sc, None, construct=f"{label}surface:{a.key}", detail="switching surface not solvable symbolically and no jump found numerically")
-    for (a, vstar) in bps:
-        for pt in others_points:
-            try:
-                vs = A.eval(vstar, pt)
-            except KeyError:
-                continue
-            if nonneg and vs < 0:
-                continue
-            lo, hi = dict(pt), dict(pt)
-            d = 1e-7 * max(1.0, abs(vs))
-            lo[var], hi[var] = vs - d, vs + d
-            if nonneg and lo[var] < 0:
-                continue
-            pl, ph = pe.active(pw, lo), pe.active(pw, hi)
-            if len(pl) != 1 or len(ph) != 1:
-                ctx.undecided(rule, sc, None, construct=f"{label}glue:{a.key}", detail=f"{len(pl)}/{len(ph)} active pieces next to the surface")
-                continue
-            P, Q = pl[0], ph[0]
-            key = (a.key, repr(P.value), repr(Q.value))
-            if key in seen:
-                continue
-            seen.add(key)
-            if A.equal(P.value, Q.value):
-                ctx.proved(rule, sc, None, construct=f"{label}surface {var}={vstar!r}: same arm both sides", detail="no switch of value here")
+    for (a, roots) in surf:
+        for vstar in (roots or []):
+            for pt in others_points:
+                try:
+                    vs = A.eval(vstar, pt)
+                except KeyError:
+                    continue
+                if nonneg and vs < 0:
+                    continue
+                lo, hi = dict(pt), dict(pt)
+                d = 1e-7 * max(1.0, abs(vs))
+                lo[var], hi[var] = vs - d, vs + d
+                if nonneg and lo[var] < 0:
+                    continue
+                pl, ph = pe.active(pw, lo), pe.active(pw, hi)
+                if len(pl) != 1 or len(ph) != 1:
+                    ctx.undecided(rule, sc, None, construct=f"{label}glue:{a.key}", detail=f"{len(pl)}/{len(ph)} active pieces next to the surface")
+                    continue
+                P, Q = pl[0], ph[0]
+                key = (a.key, repr(vstar), repr(P.value), repr(Q.value))
+                if key in seen:
+                    continue
+                seen.add(key)
+                if A.equal(P.value, Q.value):
+                    ctx.proved(rule, sc, None, construct=f"{label}surface {var}={vstar!r}: same arm both sides", detail="no switch of value here")
+                    n += 1
+                    continue
+                v0, v1 = A.subst(P.value, var, vstar), A.subst(Q.value, var, vstar)
+                ok = A.equal(v0, v1)
+                _decide(ctx, pe, rule, ok, sc, f"{label}C0 at {var}={vstar!r}", f"both arms equal {v0!r}",
+                        f"value jumps across {var} = {vstar!r}: {v0!r} on one side, {v1!r} on the other", (P.value, Q.value))
                 n += 1
-                continue
-            v0, v1 = A.subst(P.value, var, vstar), A.subst(Q.value, var, vstar)
-            ok = A.equal(v0, v1)
-            ctx.decide(rule, ok, sc, None, construct=f"{label}C0 at {var}={vstar!r}",
-                       detail=f"both arms equal {v0!r}",
-                       bad_detail=f"value jumps across {var} = {vstar!r}: {v0!r} on one side, {v1!r} on the other")
-            n += 1
-            for dv in deriv_vars:
-                g0 = A.subst(A.diff(P.value, dv), var, vstar)
-                g1 = A.subst(A.diff(Q.value, dv), var, vstar)
-                ok = A.equal(g0, g1)
-                ctx.decide(rule, ok, sc, None, construct=f"{label}C1 d/d{dv} at {var}={vstar!r}",
-                           detail=f"both one-sided derivatives equal {g0!r}",
-                           bad_detail=f"d/d{dv} jumps across {var} = {vstar!r}: {g0!r} vs {g1!r}")
-                n += 1
+                for dv in deriv_vars:
+                    g0 = A.subst(A.diff(P.value, dv), var, vstar)
+                    g1 = A.subst(A.diff(Q.value, dv), var, vstar)
+                    ok = A.equal(g0, g1)
+                    _decide(ctx, pe, rule, ok, sc, f"{label}C1 d/d{dv} at {var}={vstar!r}", f"both one-sided derivatives equal {g0!r}",
+                            f"d/d{dv} jumps across {var} = {vstar!r}: {g0!r} vs {g1!r}", (P.value, Q.value))
+                    n += 1
     return n
 
 
-# ------------------------------------------------------------------ min_base
+def _roots(A, var, *diffs):
+    out = []
+    for d in diffs:
+        r = solve_linear(A, A.norm(d), var)
+        if r is not None and not any(A.equal(r, q) for q in out):
+            out.append(r)
+    return out
 
-def _min_pw(ctx):
-    sc = ctx.need(f"{SF}:min_base")
-    xn, yn, en = sc.params()
-    A = Algebra()
-    pe = PiecewiseEval(A)
-    pe.assume(f"{en} > safeTol")
-    try:
-        pw = pe.run_function(sc.node)
-    except NotPolynomial as ex:
-        raise Incomplete(f"min_base cannot be lowered to a piecewise rational function: {ex}")
-    return sc, pe, pw, (xn, yn, en)
 
+def _leftover(ctx, ev, rule, sc, pw, allowed, what):
+    """atoms other than the function's own inputs in the interpreted value: the function is not a closed formula of them"""
+    extra = sorted({a for p in pw.pieces for a in p.value.atoms()} - set(allowed) - {a for a in ev.A.rules})
+    if extra:
+        ctx.undecided(rule, sc, None, construct=f"{what}closed-form", detail=f"the value depends on `{extra[0]}`, which is not an input of the function")
+        return True
+    return False
+
+
+# ------------------------------------------------------------------ smoothed extremum specification
+
+def _extremum(ctx, rule, sc, ev, pw, var, others, u: Rat, v: Rat, E: Rat, kind, label="", swap=None, mincells=0):
+    """`pw` (a function of `var` and the atoms fixed by `others`) is the smoothed minimum (kind='min') / maximum ('max') of the
+    two expressions u, v with width E: equal to the plain extremum -- selected, not recomputed -- where |u-v| >= E; inside the band
+    the gap to the plain extremum is (|u-v|-E)^2/(4E) on the safe side; symmetric under `swap`; C0/C1 across every surface."""
+    A = ev.A
+    name = "minimum" if kind == "min" else "maximum"
+    spec = _roots(A, var, u - v - E, u - v + E, u - v)
+    ncell = 0
+    for pt in others:
+        samples, unsolved = cells(ev, pw, var, pt, spec=spec)
+        for a in unsolved:
+            ctx.undecided(rule, sc, None, construct=f"{label}surface:{a.key}", detail=f"switching surface not solvable for {var}")
+        for (xv, roots) in samples:
+            p = dict(pt)
+            p[var] = xv
+            d, eps = exact_eval(A.norm(u - v), p), exact_eval(E, p)
+            where = f"d/eps={d / eps}"
+            P = _active(ctx, ev, rule, sc, pw, p, f"{label}{where}")
+            if P is None:
+                continue
+            ncell += 1
+            onsurf = roots[0] if roots else None
+
+            def at(r):
+                return A.subst(r, var, onsurf) if onsurf is not None else A.norm(r)
+            small_is_u = (d < 0) if kind == "min" else (d > 0)
+            m = u if small_is_u else v
+            absd = A.norm(v - u) if d < 0 else A.norm(u - v)
+            if abs(d) >= eps:
+                ok = A.equal(at(P.value), at(m))
+                _decide(ctx, ev, rule, ok, sc, f"{label}outside-band [{where}] value == {kind}", f"value {P.value!r}",
+                        f"outside the smoothing band (|x-y| >= eps, {where}) the value is {P.value!r}, not the plain {name} {m!r}", (P.value,))
+                if ok and abs(d) > eps:
+                    ex = exactness(P.term, m.atoms())
+                    _decide(ctx, ev, rule, ex != "absorbing", sc, f"{label}outside-band [{where}] {kind} is selected, not recomputed",
+                            f"floating-point trace `{term_str(P.term)}` ({ex})",
+                            f"outside the smoothing band ({where}) the result is computed as `{term_str(P.term)}`: over the reals this is the plain "
+                            f"{name} {m!r}, but in floating point the rounded arithmetic absorbs it when the other argument is much larger "
+                            f"(the value no longer *equals* the {name} outside the band)", (P.value,))
+            else:
+                gap = at(A.norm(m - P.value)) if kind == "min" else at(A.norm(P.value - m))
+                want = at(A.norm((absd - E) * (absd - E) / (A.const(4) * E)))
+                ok = A.equal(gap, want)
+                lhs = "min - value" if kind == "min" else "value - max"
+                _decide(ctx, ev, rule, ok, sc, f"{label}inside-band [{where}] {lhs} == (|d|-eps)^2/(4 eps)",
+                        f"certificate identity holds: 0 <= {lhs} <= eps/4",
+                        f"inside the band ({where}) {lhs} = {gap!r}, which is not (|x-y|-eps)^2/(4 eps) = {want!r}: "
+                        f"the one-sided bound / eps/4 tightness certificate fails", (P.value,))
+            if swap is not None:
+                # symmetry: value at the swapped point, written in the same variables
+                a0, a1 = swap
+                ps = dict(p)
+                ps[a0], ps[a1] = p[a1], p[a0]
+                acts = ev.active(pw, ps)
+                if len(acts) == 1:
+                    t0, t1 = A.atom("__swap0"), A.atom("__swap1")
+                    sw = A.subst(A.subst(acts[0].value, a0, t0), a1, t1)
+                    sw = A.subst(A.subst(sw, "__swap0", A.atom(a1)), "__swap1", A.atom(a0))
+                    v_here, sw = at(P.value), at(sw)
+                    ok = A.equal(v_here, sw)
+                    _decide(ctx, ev, rule, ok, sc, f"{label}symmetric [{where}]", "f(x,y) == f(y,x)",
+                            f"not symmetric at {where}: f(x,y) = {v_here!r} but f(y,x) = {sw!r}", (P.value, acts[0].value))
+    if ncell < mincells:
+        ctx.undecided(rule, sc, None, construct=f"{label}cells", detail=f"only {ncell} cells visited")
+    return spec
+
+
+# ------------------------------------------------------------------ min_base and its wrappers
 
 def min_base(ctx):
     rule = "T7-min_base"
-    sc, pe, pw, (xn, yn, en) = _min_pw(ctx)
-    A = pe.A
+    sc, ev, pw, ps = _lower(ctx, f"{SF}:min_base", "min_base")
+    if len(ps) != 3:
+        raise Incomplete("min_base no longer has the signature (x, y, eps)")
+    xn, yn, en = ps
+    A = ev.A
+    if _leftover(ctx, ev, rule, sc, pw, ps, ""):
+        return
     X, Y, E = A.atom(xn), A.atom(yn), A.atom(en)
     others = [{yn: Fraction(0), en: Fraction(1, 2)}, {yn: Fraction(1, 3), en: Fraction(2)}, {yn: Fraction(-2), en: Fraction(3, 7)}]
-    ncell = 0
-    for pt in others:
-        vals, unsolved = cell_samples(pe, pw, xn, {k: float(v) for k, v in pt.items()})
-        for a in unsolved:
-            ctx.undecided(rule, sc, None, construct=f"surface:{a.key}", detail="switching surface not solvable for x")
-        for xv in vals:
-            p = dict(pt)
-            p[xn] = Fraction(xv)
-            act = pe.active(pw, p)
-            if len(act) != 1:
-                ctx.refuted(rule, sc, None, construct=f"cell x-y={xv - pt[yn]} eps={pt[en]}",
-                            detail=f"{len(act)} pieces are active at x={xv}, y={pt[yn]}, eps={pt[en]}: the function is not well defined there")
-                continue
-            P = act[0]
-            d = xv - pt[yn]
-            eps = pt[en]
-            m = X if d < 0 else Y
-            absd = (Y - X) if d < 0 else (X - Y)
-            ncell += 1
-            where = f"d/eps={Fraction(d) / eps}"
-            onsurf = None
-            if abs(d) == eps or d == 0:
-                onsurf = A.norm(Y + A.const(Fraction(d) / eps) * E)      # x = y + k*eps on a switching surface
-            def at(r):
-                return A.subst(r, xn, onsurf) if onsurf is not None else r
-            if abs(d) >= eps:
-                ok = A.equal(at(P.value), at(m))
-                ctx.decide(rule, ok, sc, None, construct=f"outside-band [{where}] value == min",
-                           detail=f"value {P.value!r}", bad_detail=f"outside the smoothing band (|x-y| >= eps, {where}) the value is {P.value!r}, not the plain minimum {m!r}")
-            else:
-                gap = at(A.norm(m - P.value))
-                want = at(A.norm((absd - E) * (absd - E) / (A.const(4) * E)))
-                ok = A.equal(gap, want)
-                ctx.decide(rule, ok, sc, None, construct=f"inside-band [{where}] min - value == (|d|-eps)^2/(4 eps)",
-                           detail="certificate identity holds: 0 <= min - smooth <= eps/4",
-                           bad_detail=f"inside the band ({where}) min - smooth = {gap!r}, which is not (|x-y|-eps)^2/(4 eps) = {want!r}: "
-                                      f"the one-sided bound / eps/4 tightness certificate fails")
-            # symmetry: value at (y, x)
-            ps = dict(p)
-            ps[xn], ps[yn] = p[yn], p[xn]
-            acts = pe.active(pw, ps)
-            if len(acts) == 1:
-                sw = _subst_many(A, acts[0].value, {xn: Y, yn: X})
-                v_here = at(P.value)
-                sw = at(sw)
-                ok = A.equal(v_here, sw)
-                ctx.decide(rule, ok, sc, None, construct=f"symmetric [{where}]",
-                           detail="f(x,y) == f(y,x)", bad_detail=f"not symmetric at {where}: f(x,y) = {v_here!r} but f(y,x) = {sw!r}")
-    if ncell < 15:
-        ctx.undecided(rule, sc, None, construct="cells", detail=f"only {ncell} cells visited")
-    n = _glue(ctx, rule, sc, pe, pw, xn, [{k: float(v) for k, v in pt.items()} for pt in others], (xn, yn))
+    spec = _extremum(ctx, rule, sc, ev, pw, xn, others, X, Y, E, "min", swap=(xn, yn), mincells=15)
+    n = _glue(ctx, rule, sc, ev, pw, xn, [_fl(pt) for pt in others], (xn, yn), candidates=spec)
     if n < 4:
         ctx.undecided(rule, sc, None, construct="glue", detail=f"{n} surface obligations")
 
 
 def max_abs(ctx):
+    """min / max / abs are verified against their own specification (the mirrored bounds), whatever way they are reduced to the
+    smoothed minimum: -min_base(-x,-y), max(x,-x), a keyword call, a private helper ..."""
     rule = "T5-mirrored-wrappers"
-    for name, want in (("min", "min_base(x, y, eps)"), ("max", "-min_base(-x, -y, eps)"), ("abs", "-min_base(-x, x, eps)")):
-        sc = ctx.need(f"{SF}:{name}")
-        r = sc.returns()
-        ok = len(r) == 1 and same(r[0], want)
-        ctx.decide(rule, ok, sc, r[0] if r else None, construct=name, detail=f"{name} = {want}",
-                   bad_detail=f"SmoothFunctions.{name} returns `{src(r[0]) if r else '?'}`, expected `{want}` (mirror of the smoothed minimum)")
+    for name in ("min", "max", "abs"):
+        sc, ev, pw, ps = _lower(ctx, f"{SF}:{name}", name)
+        A = ev.A
+        if _leftover(ctx, ev, rule, sc, pw, ps, f"{name}: "):
+            continue
+        if name == "abs":
+            if len(ps) != 2:
+                raise Incomplete("abs no longer has the signature (x, eps)")
+            xn, en = ps
+            X, E = A.atom(xn), A.atom(en)
+            others = [{en: Fraction(1, 2)}, {en: Fraction(2)}, {en: Fraction(3, 7)}]
+            spec = _extremum(ctx, rule, sc, ev, pw, xn, others, X, A.norm(-X), E, "max", label="abs: ", mincells=9)
+            _glue(ctx, rule, sc, ev, pw, xn, [_fl(pt) for pt in others], (xn,), label="abs: ", candidates=spec)
+        else:
+            if len(ps) != 3:
+                raise Incomplete(f"{name} no longer has the signature (x, y, eps)")
+            xn, yn, en = ps
+            X, Y, E = A.atom(xn), A.atom(yn), A.atom(en)
+            others = [{yn: Fraction(0), en: Fraction(1, 2)}, {yn: Fraction(1, 3), en: Fraction(2)}, {yn: Fraction(-2), en: Fraction(3, 7)}]
+            spec = _extremum(ctx, rule, sc, ev, pw, xn, others, X, Y, E, name, label=f"{name}: ", swap=(xn, yn), mincells=15)
+            _glue(ctx, rule, sc, ev, pw, xn, [_fl(pt) for pt in others], (xn, yn), label=f"{name}: ", candidates=spec)
 
 
 # ------------------------------------------------------------------ zmax / smooth_linear
 
+def _arms(ctx, rule, sc, ev, pw, var, others, spec, arm_of, mincells=0, nonneg=False, after=None):
+    """generic cell walk: in every cell the active piece equals the specification arm `arm_of(point) -> (Rat, text)`
+    (on a surface: after substituting the surface equation)."""
+    A = ev.A
+    ncell = 0
+    for pt in others:
+        samples, unsolved = cells(ev, pw, var, pt, nonneg=nonneg, spec=spec)
+        for a in unsolved:
+            ctx.undecided(rule, sc, None, construct=f"surface:{a.key}", detail=f"switching surface not solvable for {var}")
+        for (xv, roots) in samples:
+            p = dict(pt)
+            p[var] = xv
+            P = _active(ctx, ev, rule, sc, pw, p, f"{var}={xv}")
+            if P is None:
+                continue
+            ncell += 1
+            want, nm, where = arm_of(p)
+            onsurf = roots[0] if roots else None
+            at = (lambda r: A.subst(r, var, onsurf)) if onsurf is not None else A.norm
+            ok = A.equal(at(P.value), at(want))
+            _decide(ctx, ev, rule, ok, sc, f"[{where}] value == {nm}", "arm as specified",
+                    f"at {where} the function evaluates the arm {P.value!r}, expected {nm}", (P.value,))
+            if after is not None and onsurf is None:
+                after(p, P, ok, where)
+    if ncell < mincells:
+        ctx.undecided(rule, sc, None, construct="cells", detail=f"only {ncell} cells visited")
+
+
 def zmax(ctx):
     rule = "T7-zmax"
-    sc = ctx.need(f"{SF}:zmax")
-    xn, en = sc.params()
-    A = Algebra()
-    pe = PiecewiseEval(A)
-    try:
-        pw = pe.run_function(sc.node)
-    except NotPolynomial as ex:
-        raise Incomplete(f"zmax: {ex}")
+    sc, ev, pw, ps = _lower(ctx, f"{SF}:zmax", "zmax")
+    if len(ps) != 2:
+        raise Incomplete("zmax no longer has the signature (x, eps)")
+    xn, en = ps
+    A = ev.A
+    if _leftover(ctx, ev, rule, sc, pw, ps, ""):
+        return
     X, E = A.atom(xn), A.atom(en)
-    pts = [{en: 0.5}, {en: 2.0}]
-    for pt in pts:
-        vals, _ = cell_samples(pe, pw, xn, pt)
-        for xv in vals:
-            p = dict(pt)
-            p[xn] = float(xv)
-            act = pe.active(pw, p)
-            if len(act) != 1:
-                ctx.refuted(rule, sc, None, construct=f"cell x/eps={float(xv) / pt[en]}", detail=f"{len(act)} active pieces")
-                continue
-            v = act[0].value
-            r = float(xv) / pt[en]
-            if r >= 1:
-                ctx.decide(rule, A.equal(v, X), sc, None, construct=f"[x/eps={r:g}] value == x", detail="identity above the band",
-                           bad_detail=f"for x >= eps the smoothed ramp is {v!r}, not x")
-            elif r <= -1:
-                ctx.decide(rule, A.is_zero(v), sc, None, construct=f"[x/eps={r:g}] value == 0", detail="zero below the band",
-                           bad_detail=f"for x <= -eps the smoothed ramp is {v!r}, not 0")
-            else:
-                want = A.norm((X + E) * (X + E) / (A.const(4) * E))
-                ctx.decide(rule, A.equal(v, want), sc, None, construct=f"[x/eps={r:g}] value == (x+eps)^2/(4 eps)",
-                           detail="quadratic blend", bad_detail=f"inside the band the ramp is {v!r}, not (x+eps)^2/(4 eps)")
-    _glue(ctx, rule, sc, pe, pw, xn, pts, (xn,))
+    pts = [{en: Fraction(1, 2)}, {en: Fraction(2)}]
+    spec = _roots(A, xn, X - E, X + E)
+
+    def arm(p):
+        r = p[xn] / p[en]
+        where = f"x/eps={float(r):g}"
+        if r >= 1:
+            return X, "x", where
+        if r <= -1:
+            return A.const(0), "0", where
+        return A.norm((X + E) * (X + E) / (A.const(4) * E)), "(x+eps)^2/(4 eps)", where
+    _arms(ctx, rule, sc, ev, pw, xn, pts, spec, arm, mincells=6)
+    _glue(ctx, rule, sc, ev, pw, xn, [_fl(p) for p in pts], (xn,), candidates=spec)
 
 
 def smooth_linear(ctx):
     rule = "T7-smooth_linear"
-    sc = ctx.need(f"{MC}:smooth_linear")
-    xn, ln = sc.params()
-    A = Algebra()
-    pe = PiecewiseEval(A)
-    try:
-        pw = pe.run_function(sc.node)
-    except NotPolynomial as ex:
-        raise Incomplete(f"smooth_linear: {ex}")
+    sc, ev, pw, ps = _lower(ctx, f"{MC}:smooth_linear", "smooth_linear")
+    if len(ps) != 2:
+        raise Incomplete("smooth_linear no longer has the signature (xi, l)")
+    xn, ln = ps
+    A = ev.A
+    if _leftover(ctx, ev, rule, sc, pw, ps, ""):
+        return
     X, L = A.atom(xn), A.atom(ln)
-    pts = [{ln: 0.25}, {ln: 0.1}, {ln: 0.4}]
-    for pt in pts:
-        vals, _ = cell_samples(pe, pw, xn, pt)
-        for xv in vals:
-            p = dict(pt)
-            p[xn] = float(xv)
-            act = pe.active(pw, p)
-            if len(act) != 1:
-                ctx.refuted(rule, sc, None, construct=f"cell xi={float(xv):g}", detail=f"{len(act)} active pieces")
-                continue
-            v = act[0].value
-            x, l = float(xv), pt[ln]
-            if x < l:
-                want, nm = A.norm(X * X / (A.const(2) * L)), "xi^2/(2 l)"
-            elif x > 1 - l:
-                want, nm = A.norm(A.const(1) - L - (A.const(1) - X) * (A.const(1) - X) / (A.const(2) * L)), "1 - l - (1-xi)^2/(2 l)"
-            else:
-                want, nm = A.norm(X - L / A.const(2)), "xi - l/2"
-            ctx.decide(rule, A.equal(v, want), sc, None, construct=f"[xi={x:g}, l={l:g}] value == {nm}", detail="arm as specified",
-                       bad_detail=f"smooth_linear at xi={x:g}, l={l:g} evaluates the arm {v!r}, expected {nm}")
-    n = _glue(ctx, rule, sc, pe, pw, xn, pts, (xn,))
+    one = A.const(1)
+    pts = [{ln: Fraction(1, 4)}, {ln: Fraction(1, 10)}, {ln: Fraction(2, 5)}]
+    spec = _roots(A, xn, X - L, X - one + L)
+
+    def arm(p):
+        x, l = p[xn], p[ln]
+        where = f"xi={float(x):g}, l={float(l):g}"
+        if x < l:
+            return A.norm(X * X / (A.const(2) * L)), "xi^2/(2 l)", where
+        if x > 1 - l:
+            return A.norm(one - L - (one - X) * (one - X) / (A.const(2) * L)), "1 - l - (1-xi)^2/(2 l)", where
+        return A.norm(X - L / A.const(2)), "xi - l/2", where
+    _arms(ctx, rule, sc, ev, pw, xn, pts, spec, arm, mincells=9)
+    n = _glue(ctx, rule, sc, ev, pw, xn, [_fl(p) for p in pts], (xn,), candidates=spec)
     if n < 4:
         ctx.undecided(rule, sc, None, construct="glue", detail=f"{n} surface obligations")
 
 
 # ------------------------------------------------------------------ friction
 
-class _SelfDot(ast.NodeTransformer):
-    def __init__(self, vec, scalar):
-        self.vec, self.scalar = vec, scalar
-
-    def visit_BinOp(self, n):
-        self.generic_visit(n)
-        if isinstance(n.op, ast.MatMult) and isinstance(n.left, ast.Name) and isinstance(n.right, ast.Name) \
-                and n.left.id == self.vec and n.right.id == self.vec:
-            return ast.BinOp(left=ast.Name(id=self.scalar, ctx=ast.Load()), op=ast.Mult(), right=ast.Name(id=self.scalar, ctx=ast.Load()))
-        return n
+def _record_layout(ctx, modname, needed):
+    """field order of the one namedtuple of module `modname` that has the fields `needed` (so that p[0] and p.mu denote the same)"""
+    m = ctx.repo.module(modname)
+    found = []
+    for n in ast.walk(m.tree):
+        if isinstance(n, ast.Call) and (getattr(n.func, "id", None) or getattr(n.func, "attr", None)) == "namedtuple" and len(n.args) >= 2:
+            nt = namedtuple_fields(n)
+            if nt is not None and all(f in nt.fields for f in needed):
+                found.append(list(nt.fields))
+    return found[0] if len(found) == 1 else None
 
 
 def friction(ctx):
     rule = "T7-friction"
-    sc = ctx.need(f"{FR}:compute_friction_energy_from_perp_slip")
-    sp, fp = sc.params()
-    fn = _SelfDot(sp, "t").visit(copy.deepcopy(sc.node))
-    ast.fix_missing_locations(fn)
-    A = Algebra()
-    pe = PiecewiseEval(A)
-    try:
-        pw = pe.run_function(fn)
-    except NotPolynomial as ex:
-        raise Incomplete(f"friction potential: {ex}")
-    ctx.assume("t = |sPerp| >= 0 (sPerp@sPerp is replaced by t*t; sqrt(t^2) = t)")
-    T = A.atom("t")
-    S = A.atom(f"{fp}.sReg")
-    MU = A.atom(f"{fp}.mu")
-    sreg_key = f"{fp}.sReg"
-    pts = [{sreg_key: 0.5, f"{fp}.mu": 0.3}, {sreg_key: 2.0, f"{fp}.mu": 1.5}]
-    ncell = 0
-    for pt in pts:
-        vals, unsolved = cell_samples(pe, pw, "t", pt, nonneg=True)
-        for tv in vals:
-            p = dict(pt)
-            p["t"] = float(tv)
-            act = pe.active(pw, p)
-            if len(act) != 1:
-                ctx.refuted(rule, sc, None, construct=f"cell t/sReg={float(tv) / pt[sreg_key]:g}", detail=f"{len(act)} active pieces")
-                continue
-            ncell += 1
-            v = act[0].value
-            r = float(tv) / pt[sreg_key]
-            if r <= 1:
-                want = A.norm(MU * T * T / (A.const(2) * S))
-                ok = A.equal(v, want)
-                ctx.decide(rule, ok, sc, None, construct=f"[t/sReg={r:g}] inner arm == mu t^2/(2 sReg)",
-                           detail="quadratic potential inside the regularisation radius",
-                           bad_detail=f"inside the switch radius the potential is {v!r}, not mu*t^2/(2 sReg)")
-                if ok:
-                    # certificates: >= 0 (square over positive), convex (second derivative mu/sReg), <= mu t:
-                    d2 = A.diff(A.diff(v, "t"), "t")
-                    ctx.decide(rule, A.equal(d2, A.norm(MU / S)), sc, None, construct=f"[t/sReg={r:g}] inner arm convex",
-                               detail="second derivative mu/sReg > 0", bad_detail=f"second derivative is {d2!r}")
-                    gap = A.norm(MU * T - v)
-                    cert = A.norm(MU * T * (A.const(2) * S - T) / (A.const(2) * S))
-                    ctx.decide(rule, A.equal(gap, cert), sc, None, construct=f"[t/sReg={r:g}] inner arm <= Coulomb value",
-                               detail="mu t - value == mu t (2 sReg - t)/(2 sReg) >= 0 for 0 <= t <= sReg",
-                               bad_detail=f"mu t - value = {gap!r}: Coulomb upper-bound certificate fails")
-            else:
-                want = A.norm(MU * (T - S / A.const(2)))
-                ok = A.equal(v, want)
-                ctx.decide(rule, ok, sc, None, construct=f"[t/sReg={r:g}] outer arm == mu (t - sReg/2)",
-                           detail="Coulomb value minus half the regularisation length",
-                           bad_detail=f"outside the switch radius the potential is {v!r}, not mu*(t - sReg/2)")
-                if ok:
-                    d2 = A.diff(A.diff(v, "t"), "t")
-                    ctx.decide(rule, A.is_zero(d2), sc, None, construct=f"[t/sReg={r:g}] outer arm linear", detail="second derivative 0",
-                               bad_detail=f"second derivative is {d2!r}")
-    if ncell < 6:
-        ctx.undecided(rule, sc, None, construct="cells", detail=f"{ncell} cells visited")
-    n = _glue(ctx, rule, sc, pe, pw, "t", pts, ("t",), nonneg=True)
+    sc0 = _anchor(ctx, f"{FR}:compute_friction_energy_from_perp_slip")
+    if len(sc0.params()) != 2:
+        raise Incomplete("the friction potential no longer has the signature (sPerp, frictionParams)")
+    sp, fp = sc0.params()
+    layout = _record_layout(ctx, FR, ("mu", "sReg"))
+    sc, ev, pw, _ = _lower(ctx, f"{FR}:compute_friction_energy_from_perp_slip", "friction potential",
+                           vectors={sp: "t"}, tuple_fields={fp: layout} if layout else None)
+    A = ev.A
+    ctx.assume("t = |sPerp| >= 0 (the self inner product of the slip vector is t*t; sqrt(t^2) = t)")
+    sreg_key, mu_key = f"{fp}.sReg", f"{fp}.mu"
+    if _leftover(ctx, ev, rule, sc, pw, ("t", sreg_key, mu_key), ""):
+        return
+    T, S, MU = A.atom("t"), A.atom(sreg_key), A.atom(mu_key)
+    pts = [{sreg_key: Fraction(1, 2), mu_key: Fraction(3, 10)}, {sreg_key: Fraction(2), mu_key: Fraction(3, 2)}]
+    spec = [S]
+
+    def arm(p):
+        r = p["t"] / p[sreg_key]
+        where = f"t/sReg={float(r):g}"
+        if r <= 1:
+            return A.norm(MU * T * T / (A.const(2) * S)), "mu t^2/(2 sReg)", where
+        return A.norm(MU * (T - S / A.const(2))), "mu (t - sReg/2)", where
+
+    def certificates(p, P, ok, where):
+        if not ok:
+            return
+        v = P.value
+        d2 = A.diff(A.diff(v, "t"), "t")
+        if p["t"] <= p[sreg_key]:
+            # certificates: >= 0 (square over positive), convex (second derivative mu/sReg), <= mu t:
+            ctx.decide(rule, A.equal(d2, A.norm(MU / S)), sc, None, construct=f"[{where}] inner arm convex",
+                       detail="second derivative mu/sReg > 0", bad_detail=f"second derivative is {d2!r}")
+            gap = A.norm(MU * T - v)
+            cert = A.norm(MU * T * (A.const(2) * S - T) / (A.const(2) * S))
+            ctx.decide(rule, A.equal(gap, cert), sc, None, construct=f"[{where}] inner arm <= Coulomb value",
+                       detail="mu t - value == mu t (2 sReg - t)/(2 sReg) >= 0 for 0 <= t <= sReg",
+                       bad_detail=f"mu t - value = {gap!r}: Coulomb upper-bound certificate fails")
+        else:
+            ctx.decide(rule, A.is_zero(d2), sc, None, construct=f"[{where}] outer arm linear", detail="second derivative 0",
+                       bad_detail=f"second derivative is {d2!r}")
+    _arms(ctx, rule, sc, ev, pw, "t", pts, spec, arm, mincells=6, nonneg=True, after=certificates)
+    n = _glue(ctx, rule, sc, ev, pw, "t", [_fl(p) for p in pts], ("t",), nonneg=True, candidates=spec)
     if n < 2:
         ctx.undecided(rule, sc, None, construct="glue", detail=f"{n} surface obligations at t = sReg")
-    # slope at the junction is mu (so the derivative is non-decreasing: mu t/sReg <= mu on the inner arm)
-    for p_ in pw.pieces:
-        pass
+
+
+# ------------------------------------------------------------------ users of the smoothed minimum
+
+def _unit_times_app(ev, r: Rat):
+    """(c, app atom) when r == c * <symbolic application> with c = +-1, else None"""
+    r = simplify(r)
+    if r.d != Poly.const(1) or len(r.n.t) != 1:
+        return None
+    (m, c), = r.n.t.items()
+    if c not in (1, -1) or len(m) != 1 or m[0][1] != 1 or m[0][0] not in ev.sym_apps:
+        return None
+    return int(c), m[0][0]
 
 
 def users(ctx):
-    """The smoothed distance uses the smoothed minimum mirrored by a sign factor s in {-1, +1}: s*min(s*a, s*b, eps) is min for s = +1
-    and the smoothed max for s = -1; the width must be non-negative for BOTH signs (a width that carries the sign collapses
-    the blend band for s = -1 and the corner distance is no longer continuously differentiable)."""
+    """The smoothed corner distance is the smoothed minimum mirrored by an orientation factor c in {-1, +1}: c*smin(c*a, c*b, w) is the
+    smoothed min of (a, b) for c = +1 and their smoothed max for c = -1.  In *every* orientation case the value must have this
+    shape with the same pair (a, b) and a width w >= 0 (a width that carries the orientation sign is negative for one orientation:
+    the blend band is empty there, the hard min/max is returned and the corner distance is not continuously differentiable).
+    The function is interpreted with the smoothed minimum kept symbolic and the unrelated geometry (closest points, normals,
+    areas) kept opaque; np.sign is enumerated over {-1, 0, +1}."""
     rule = "T5-users"
-    from optilint.absdom import SignEnv, is_nonneg, TOP
-    from optilint.cfg import cfg_of
-    from .common import expand, single_def, def_value
-    sd = ctx.need("optimism.contact.EdgeCpp:smooth_distance")
-    cfg = cfg_of(sd)
-    calls = [c for c in ast.walk(sd.node) if isinstance(c, ast.Call) and (dotted(c.func) or "") == "SmoothFunctions.min"]
-    ok = len(calls) == 1 and len(calls[0].args) == 3
-    ctx.decide(rule, ok, sd, calls[0] if calls else None, construct="smooth_distance-uses-smoothed-min",
-               detail="smooth_distance = sign * SmoothFunctions.min(sign*pd0, sign*pd1, tol)",
-               bad_detail="smooth_distance no longer goes through SmoothFunctions.min")
-    if not ok:
-        return
-    c = calls[0]
-    node = [n for n in cfg.nodes if n.ast is not None and any(x is c for x in ast.walk(n.ast))][0]
-
-    def resolver(name):
-        ds = cfg.reaching(node, name)
-        ds = [d for d in ds if d.kind == "stmt"]
-        if not ds:
-            return None
-        # the last definition on the straight-line path
-        d = ds[-1]
-        return def_value(d, name)
+    # the smoothed extrema are used through their *verified meaning* (T7-min_base, T5-mirrored-wrappers), whatever way the
+    # wrappers are implemented: min = smin, max = -smin(-a,-b), abs = -smin(-x,x)
+    sym = {f"{SF}:min_base": "min", f"{SF}:min": "min", f"{SF}:max": "max", f"{SF}:abs": "abs"}
+    named = {}
+    for q, k in sym.items():
+        try:
+            named[_anchor(ctx, q)] = k
+        except Incomplete:
+            pass
+    sym = named
+    sd = _anchor(ctx, f"{EC}:smooth_distance")
+    if len(sd.params()) != 3:
+        raise Incomplete("smooth_distance no longer has the signature (twoEdges, p, smoothingTol)")
     tol_param = sd.params()[2]
-    env = SignEnv([], assumptions={tol_param: "+"}, expander=resolver)
-    sg = env.sign(c.args[2])
-    # mirrored use: the two arguments and the result carry the same sign factor
-    okw = True if is_nonneg(sg) else (None if sg == TOP else False)
-    wit = ""
-    if okw is None:
-        # a factor whose definition is -sign(.) / where(.., 1.0, ..) takes both signs: then the width is negative for one of them
-        e = expand(cfg, node, c.args[2], depth=1)
-        facs = []
-
-        def flat(x):
-            if isinstance(x, ast.BinOp) and isinstance(x.op, ast.Mult):
-                flat(x.left)
-                flat(x.right)
-            else:
-                facs.append(x)
-        flat(e)
-        signed = [f for f in facs if isinstance(f, ast.Name) and any(isinstance(k, ast.Call) and (dotted(k.func) or "").split(".")[-1] == "sign"
-                                                                     for st_ in ast.walk(sd.node) if isinstance(st_, ast.Assign) and isinstance(st_.targets[0], ast.Name)
-                                                                     and st_.targets[0].id == f.id for k in ast.walk(st_.value))]
-        if signed:
-            okw, wit = False, f"it carries the factor `{signed[0].id}`, which is -1 for one orientation of the edge pair"
-    ctx.decide(rule, okw, sd, c, construct="smoothing-width-nonnegative", detail=f"width `{src(c.args[2])}` has sign {sg}",
-               bad_detail=f"the smoothing width passed to SmoothFunctions.min is `{src(c.args[2])}`: {wit or 'not provably >= 0'}; for a negative width the "
+    sc, ev, pw, ps = _lower(ctx, f"{EC}:smooth_distance", "smooth_distance", symbolic=sym, abs_as_atom=True, keep_only_reduced=True)
+    A = ev.A
+    shapes = []
+    unread = []
+    for P in pw.pieces:
+        ua = _unit_times_app(ev, P.value)
+        if ua is None:
+            unread.append(P)
+            continue
+        c, app = ua
+        a0, a1, w = ev.sym_apps[app][1]
+        shapes.append((P, c, a0, a1, w))
+    # no smoothed extremum at all: a value that merely *selects* (+- one opaque distance per case, at least two of them)
+    # is a hard min/max (positively not smoothed); anything else is an idiom this rule cannot read
+    anyapp = any(a in ev.sym_apps for P in pw.pieces for a in P.value.atoms())
+    def selected(r):
+        r = simplify(r)
+        if r.d != Poly.const(1) or len(r.n.t) != 1:
+            return None
+        (m, c), = r.n.t.items()
+        if c in (1, -1) and len(m) == 1 and m[0][1] == 1 and m[0][0] not in A.rules and m[0][0] not in ev.failed:
+            return m[0][0]
+        return None
+    picks = [selected(P.value) for P in pw.pieces]
+    hard = all(x is not None for x in picks) and len(set(picks)) >= 2
+    ctx.decide(rule, True if shapes else (False if (not anyapp and hard) else None), sc, None, construct="smooth_distance-uses-smoothed-min",
+               detail=f"smooth_distance = c * smoothed-min(c*a, c*b, w) in {len(shapes)} orientation / width case(s)",
+               bad_detail="smooth_distance no longer goes through the smoothed minimum of SmoothFunctions: it only selects among "
+                          f"{sorted({repr(P.value) for P in pw.pieces})[:4]} (hard min/max, not C1 across the corner bisector)" if (not anyapp and hard)
+               else f"the value `{pw.pieces[0].value!r}` of smooth_distance is not (+-1) * smoothed minimum")
+    if not shapes:
+        return
+    for P in unread:
+        ctx.undecided(rule, sc, None, construct="mirrored-by-one-sign-factor",
+                      detail=f"in one case the value of smooth_distance is `{P.value!r}`, which is not (+-1) * smoothed minimum")
+    # width: >= 0 in every case
+    verdict, wit = True, ""
+    for (P, c, a0, a1, w) in shapes:
+        sg = sign_of(ev, w, positive=(tol_param,))
+        if sg is None:
+            # the width goes through a folded helper: look at the values the helper can return
+            sgs = {sign_of(ev, x, positive=(tol_param,)) for x in ev.alternatives(w)}
+            sg = "0+" if sgs <= {"+", "0+", "0"} else "-0" if (sgs <= {"-", "-0", "0"} and sgs & {"-", "-0"}) else None
+        if sg in ("+", "0+", "0"):
+            continue
+        if sg in ("-", "-0"):
+            verdict, wit = False, f"for the orientation factor {c:+d} the width is `{w!r}`, which is negative whenever it is not zero"
+            break
+        verdict, wit = None, f"the sign of the width `{w!r}` is not determined"
+    widths = sorted({repr(w) for (_, _, _, _, w) in shapes})
+    ctx.decide(rule, verdict, sc, None, construct="smoothing-width-nonnegative", detail=f"widths {widths} are >= 0 in every orientation case",
+               bad_detail=f"the smoothing width passed to the smoothed minimum is not >= 0: {wit}; for a negative width the "
                           f"blend band is empty and the hard min/max is returned (distance not C1 across the corner bisector)")
-    a0, a1 = c.args[0], c.args[1]
-    okm = isinstance(a0, ast.BinOp) and isinstance(a1, ast.BinOp) and isinstance(a0.op, ast.Mult) and isinstance(a1.op, ast.Mult) \
-        and isinstance(a0.left, ast.Name) and isinstance(a1.left, ast.Name) and a0.left.id == a1.left.id
-    if okm:
-        r = cfg.returns()
-        okm = len(r) == 1 and isinstance(r[0].ast.value, ast.BinOp) and isinstance(r[0].ast.value.op, ast.Mult) and \
-            ((isinstance(r[0].ast.value.left, ast.Name) and r[0].ast.value.left.id == a0.left.id and r[0].ast.value.right is c) or
-             (isinstance(r[0].ast.value.right, ast.Name) and r[0].ast.value.right.id == a0.left.id and r[0].ast.value.left is c))
-    ctx.decide(rule, okm, sd, c, construct="mirrored-by-one-sign-factor", detail="s * min(s*a, s*b, eps) with one factor s",
-               bad_detail="smooth_distance is not s * SmoothFunctions.min(s*a, s*b, eps) with the same sign factor on both arguments and the result")
+    # one pair (a, b) whatever the orientation: the set of pairs {c*A, c*B} met with c = +1 equals the set met with c = -1
+    # (a and b may themselves be piecewise -- clamped closest points -- but must not depend on the orientation factor)
+    pairs = {}
+    for (P, c, a0, a1, w) in shapes:
+        k = tuple(sorted((repr(A.norm(A.const(c) * a0)), repr(A.norm(A.const(c) * a1)))))
+        pairs.setdefault(c, set()).add(k)
+    okm = len(pairs) < 2 or pairs[1] == pairs[-1]
+    bad = ""
+    if not okm:
+        k0 = sorted(pairs[1] - pairs[-1] or pairs[1])[0]
+        k1 = sorted(pairs[-1] - pairs[1] or pairs[-1])[0]
+        bad = (f"for the orientation factor +1 the value is the smoothed extremum of ({k0[0]}, {k0[1]}), "
+               f"for -1 of ({k1[0]}, {k1[1]})")
+    ctx.decide(rule, okm, sc, None, construct="mirrored-by-one-sign-factor", detail="c * smin(c*a, c*b, w) with one factor c and one pair (a, b)",
+               bad_detail="smooth_distance is not c * smoothed-min(c*a, c*b, eps) with the same sign factor on both arguments and the result: " + bad)
+
+
+# the rule functions are also called from other properties (C16 shares smooth_linear): guard them at the definition
+min_base, max_abs, zmax, smooth_linear, friction, users = (_guarded(f) for f in (min_base, max_abs, zmax, smooth_linear, friction, users))
+
+
+def _replace_def(name, new_text):
+    """edit: replace the whole top-level function `name` by `new_text` (which may define helpers as well)"""
+    def f(src):
+        try:
+            tree = ast.parse(src)
+        except SyntaxError:
+            return None
+        node = [st for st in tree.body if isinstance(st, ast.FunctionDef) and st.name == name]
+        if len(node) != 1:
+            return None
+        lines = src.split("\n")
+        return "\n".join(lines[:node[0].lineno - 1] + new_text.strip("\n").split("\n") + [""] + lines[node[0].end_lineno:])
+    return f
+
+
+def _chain(*edits):
+    def f(src):
+        for e in edits:
+            src = e(src)
+            if src is None:
+                return None
+        return src
+    return f
+
+
+_P_MIN_BASE = """
+def _blend(s, p, w):
+    return (p - 0.25*(s - w)**2)/w
+
+
+def min_base(x, y, eps):
+    width = np.maximum(eps, safeTol)
+    inside = (x - y < eps) & (y - x < eps)
+    lo = np.minimum(x, y)
+    xs = np.where(inside, x, 0.0)
+    ys = np.where(inside, y, 0.0)
+    smooth = _blend(xs + ys, xs*ys, w=width)
+    return np.where(~inside, lo, smooth)
+"""
+
+_P_MIN_BASE_GUARD = """
+def min_base(x, y, eps):
+    'smoothed minimum'
+    d = y - x
+    if d >= eps:
+        return x
+    if -d >= eps:
+        return y
+    e = eps if eps > safeTol else safeTol
+    total: float = x + y
+    total -= e
+    return (x*y - total*total/4)/e
+"""
+
+_P_MIN_BASE_SQUARED_BAND = """
+def min_base(x, y, eps):
+    safeEps = np.where(eps > safeTol, eps, safeTol)
+    xmy = x-y
+    justMin = np.where(x < y, x, y)
+    isInsideEps = xmy*xmy < eps*eps
+    x = np.where(isInsideEps, x, 0.0)
+    y = np.where(isInsideEps, y, 0.0)
+    return np.where(isInsideEps, (-0.25*(x+y-safeEps)**2 + x*y)/safeEps, justMin)
+"""
+
+_B_MIN_BASE_ABSORB = """
+def min_base(x, y, eps):
+    safeEps = np.where(eps > safeTol, eps, safeTol)
+    xmy = x-y
+    justMin = 0.5*(x + y) - 0.5*np.abs(xmy)
+    isInsideEps = np.abs(xmy) < eps
+    x = np.where(isInsideEps, x, 0.0)
+    y = np.where(isInsideEps, y, 0.0)
+    return np.where(isInsideEps, (-0.25*(x+y-safeEps)**2 + x*y)/safeEps, justMin)
+"""
+
+_P_ZMAX = """
+def zmax(x, eps):
+    def blend(z):
+        return 0.25*(z + eps)*(z + eps)/eps
+    return np.where(x <= -eps, 0.0, np.where(x < eps, blend(x), x))
+"""
+
+_P_ZMAX_COND = """
+def zmax(x, eps):
+    from jax import lax
+    upper = lax.cond(x >= eps, lambda z: z, lambda z: (z+eps)**2/(4.0*eps), x)
+    return lax.cond(x > -eps, lambda: upper, lambda: 0.0)
+"""
+
+_P_FRICTION = """
+def _stick_energy(s2, r):
+    return 0.5*s2/r
+
+
+def _slip_energy(s2, r):
+    return np.sqrt(s2) - r/2
+
+
+def compute_friction_energy_from_perp_slip(sPerp, frictionParams):
+    mu, sReg = frictionParams
+    s2 = np.dot(sPerp, sPerp)
+    return mu*np.where(s2 > sReg**2, _slip_energy(s2, sReg), _stick_energy(s2, r=sReg))
+"""
+
+_P_FRICTION_NORM = """
+def compute_friction_energy_from_perp_slip(sPerp, frictionParams):
+    slip = np.linalg.norm(sPerp)
+    reg = frictionParams[1]
+    inner = frictionParams.mu*np.sum(sPerp**2)/(2*reg)
+    outer = frictionParams[0]*(slip - 0.5*reg)
+    return np.where(slip <= reg, inner, outer)
+"""
+
+_B_FRICTION_PRECEDENCE = """
+def compute_friction_energy_from_perp_slip(sPerp, frictionParams):
+    mu, sReg = frictionParams
+    s2 = np.dot(sPerp, sPerp)
+    return mu*np.where(s2 > sReg**2, np.sqrt(s2) - 0.5*sReg, s2 / 2*sReg)
+"""
+
+_P_SMOOTH_LINEAR = """
+def smooth_linear(xi, l):
+    lower = xi < l
+    upper = xi > 1.0 - l
+    cap = lambda z: 0.5*z**2/l
+    return jnp.select([lower, upper], [cap(xi), 1.0 - l - cap(1.0 - xi)], xi - 0.5*l)
+"""
+
+_B_SMOOTH_LINEAR_CAP = """
+def smooth_linear(xi, l):
+    lower = xi < l
+    upper = xi > 1.0 - l
+    cap = lambda z: 0.5*z**2/l
+    return jnp.select([lower, upper], [cap(xi), 1.0 - l - cap(xi - 1.0 + l)], xi - 0.5*l)
+"""
+
+_SD_HEAD = """
+def _orientation(twoEdges):
+    a1 = area(twoEdges[0][0], twoEdges[0][1], twoEdges[1][0])
+    a2 = area(twoEdges[1][0], twoEdges[1][1], twoEdges[0][0])
+    return np.where(a1 + a2 > 0, -1.0, 1.0)
+
+
+def _signed_normal_distance(edge, p):
+    closest, _ = cpp(edge, p)
+    return dot(p - closest, Surface.compute_normal(edge))
+"""
+
+_P_SMOOTH_DISTANCE = _SD_HEAD + """
+
+def _mirrored_min(s, a, b, w):
+    return s*SmoothFunctions.min(s*a, s*b, eps=w)
+
+
+def smooth_distance(twoEdges, p, smoothingTol):
+    s = _orientation(twoEdges)
+    pd = (_signed_normal_distance(twoEdges[0], p), _signed_normal_distance(twoEdges[1], p))
+    crossN = np.abs(cross(Surface.compute_normal(twoEdges[0]), Surface.compute_normal(twoEdges[1])))
+    width = np.where(crossN > 1e-14, smoothingTol*crossN, 0.0)
+    return _mirrored_min(s, pd[0], pd[1], width)
+"""
+
+_P_SMOOTH_DISTANCE_MINMAX = _SD_HEAD + """
+
+def smooth_distance(twoEdges, p, smoothingTol):
+    s = _orientation(twoEdges)
+    pd0 = _signed_normal_distance(twoEdges[0], p)
+    pd1 = _signed_normal_distance(twoEdges[1], p)
+    crossN = np.abs(cross(Surface.compute_normal(twoEdges[0]), Surface.compute_normal(twoEdges[1])))
+    width = np.where(crossN > 1e-14, smoothingTol*crossN, 0.0)
+    return np.where(s > 0, SmoothFunctions.min(pd0, pd1, width), SmoothFunctions.max(pd0, pd1, width))
+"""
+
+_B_SMOOTH_DISTANCE_HELPER = _SD_HEAD + """
+
+def _mirrored_min(s, a, b, w):
+    return s*SmoothFunctions.min(s*a, s*b, eps=s*w)
+
+
+def smooth_distance(twoEdges, p, smoothingTol):
+    s = _orientation(twoEdges)
+    pd0 = _signed_normal_distance(twoEdges[0], p)
+    pd1 = _signed_normal_distance(twoEdges[1], p)
+    crossN = np.abs(cross(Surface.compute_normal(twoEdges[0]), Surface.compute_normal(twoEdges[1])))
+    width = np.where(crossN > 1e-14, smoothingTol*crossN, 0.0)
+    return _mirrored_min(s, pd0, pd1, width)
+"""
+
+_B_SMOOTH_DISTANCE_MINMAX = _SD_HEAD + """
+
+def smooth_distance(twoEdges, p, smoothingTol):
+    s = _orientation(twoEdges)
+    pd0 = _signed_normal_distance(twoEdges[0], p)
+    pd1 = _signed_normal_distance(twoEdges[1], p)
+    crossN = np.abs(cross(Surface.compute_normal(twoEdges[0]), Surface.compute_normal(twoEdges[1])))
+    width = np.where(crossN > 1e-14, smoothingTol*crossN, 0.0)
+    return np.where(s > 0, SmoothFunctions.min(pd0, pd1, width), SmoothFunctions.max(pd0, -pd1, width))
+"""
+
+_P_MIN_SWAPPED_ROLES = """
+def min(x, y, eps):
+    safeEps = np.where(eps > safeTol, eps, safeTol)
+    isInsideEps = np.sqrt((x-y)*(x-y)) < eps
+    xi = np.where(isInsideEps, x, 0.0)
+    yi = np.where(isInsideEps, y, 0.0)
+    return np.where(isInsideEps, 0.5*(xi + yi) - ((xi - yi)**2 + safeEps**2)/(4*safeEps), np.minimum(x, y))
+"""
+
+_P_FRICTION_METHODS = """
+def compute_friction_energy_from_perp_slip(sPerp, frictionParams):
+    sReg = frictionParams.sReg
+    sPerpSquared = sPerp.dot(sPerp)
+    fEnergy = lax.select(np.einsum('i,i', sPerp, sPerp) <= sReg*sReg,
+                         sPerpSquared / (2*sReg),
+                         sPerpSquared**0.5 - 0.5*sReg)
+    return frictionParams.mu * fEnergy
+"""
+
+
+def _swap_min_roles(src):
+    src = _replace_def("min", "def min_base_NEW(x, y, eps):\n    return min(x, y, eps)\n")(src)
+    src = None if src is None else _replace_def("min_base", _P_MIN_SWAPPED_ROLES)(src)
+    return None if src is None else src.replace("min_base_NEW", "min_base")
+
+_SD_INLINE = """
+def smooth_distance(twoEdges, p, smoothingTol):
+    e0, e1 = twoEdges[0], twoEdges[1]
+    orientation = -np.sign(area(e0[0], e0[1], e1[0]) + area(e1[0], e1[1], e0[0]))
+    orientation = np.where(orientation == 0, 1.0, orientation)
+    v0 = e0[1] - e0[0]
+    t0 = np.clip(-dot(v0, e0[0]-p) / norm_squared(v0), 0.0, 1.0)
+    v1 = e1[1] - e1[0]
+    t1 = np.clip(-dot(v1, e1[0]-p) / norm_squared(v1), 0.0, 1.0)
+    n0 = Surface.compute_normal(e0)
+    n1 = Surface.compute_normal(e1)
+    pd0 = dot(p - ((1.0-t0)*e0[0] + t0*e0[1]), n0)
+    pd1 = dot(p - ((1.0-t1)*e1[0] + t1*e1[1]), n1)
+    crossN = np.abs(cross(n0, n1))
+    tol = np.where(crossN > 1e-14, crossN*smoothingTol, 0.0)
+    return orientation*SmoothFunctions.min(orientation*pd0, ARG1, tol)
+"""
+
+_P_LAMBDA_WRAPPERS = """
+min = lambda x, y, eps: min_base(x, y, eps)
+max = lambda x, y, eps: -min_base(-x, -y, eps)
+"""
+
+_P_SMOOTH_LINEAR_PIECEWISE = """
+def smooth_linear(xi, l):
+    return jnp.piecewise(xi, [xi < l, xi > 1.0 - l],
+                         [lambda z: 0.5*z*z/l, lambda z: 1.0 - l - 0.5*(1.0 - z)**2/l, lambda z: z - 0.5*l])
+"""
+
+
+def _lambda_wrappers(src):
+    src = _replace_def("min", "")(src)
+    return None if src is None else _replace_def("max", _P_LAMBDA_WRAPPERS)(src)
 
 
 def variants(repo):
@@ -467,27 +867,78 @@ def variants(repo):
     S = "optimism/SmoothFunctions.py"
     F = "optimism/contact/Friction.py"
     M = "optimism/contact/MortarContact.py"
+    E = "optimism/contact/EdgeCpp.py"
+    RET = "    return sign*SmoothFunctions.min(sign*pd0, sign*pd1, tol)"
+    FRI = "compute_friction_energy_from_perp_slip"
     return [
         Variant("blend coefficient", S, sub("(-0.25*(x+y-safeEps)**2 + x*y)/safeEps", "(-0.5*(x+y-safeEps)**2 + x*y)/safeEps"), "T7-min_base"),
         Variant("blend sign of eps", S, sub("(-0.25*(x+y-safeEps)**2 + x*y)/safeEps", "(-0.25*(x+y+safeEps)**2 + x*y)/safeEps"), "T7-min_base"),
         Variant("band twice as wide", S, sub("isInsideEps = np.abs(xmy) < eps", "isInsideEps = np.abs(xmy) < 2*eps"), "T7-min_base"),
         Variant("plain min picks max", S, sub("justMin = np.where(x < y, x, y)", "justMin = np.where(x < y, y, x)"), "T7-min_base"),
         Variant("asymmetric blend", S, sub("(-0.25*(x+y-safeEps)**2 + x*y)/safeEps", "(-0.25*(x+y-safeEps)**2 + x*x)/safeEps"), "T7-min_base"),
+        Variant("hard min recomputed by cancelling arithmetic", S, _replace_def("min_base", _B_MIN_BASE_ABSORB), "T7-min_base"),
         Variant("max not mirrored", S, sub("    return -min_base(-x, -y, eps)", "    return -min_base(-x, y, eps)"), "T5-mirrored-wrappers"),
         Variant("abs wrong", S, sub("    return -min_base(-x, x, eps)", "    return min_base(-x, x, eps)"), "T5-mirrored-wrappers"),
+        Variant("max by x + y - min (absorbs the smaller argument)", S, sub("    return -min_base(-x, -y, eps)", "    return x + y - min_base(x, y, eps)"), "T5-mirrored-wrappers"),
+        Variant("max with negated width", S, sub("    return -min_base(-x, -y, eps)", "    return -min_base(-x, -y, eps=-eps)"), "T5-mirrored-wrappers"),
+        Variant("abs with half the band", S, sub("    return -min_base(-x, x, eps)", "    return max(x, -x, 0.5*eps)"), "T5-mirrored-wrappers"),
+        Variant("abs by sqrt regularisation", S, sub("    return -min_base(-x, x, eps)", "    return np.sqrt(x*x + eps*eps)"), "T5-mirrored-wrappers"),
         Variant("zmax blend", S, sub("(x+eps)**2/(4.0*eps)", "(x+eps)**2/(2.0*eps)"), "T7-zmax"),
         Variant("zmax switch", S, sub("if_then_else(x <= -eps, 0.0, tmp)", "if_then_else(x <= 0, 0.0, tmp)"), "T7-zmax"),
         Variant("friction offset", F, sub("Math.safe_sqrt(sPerpSquared) - 0.5*sReg", "Math.safe_sqrt(sPerpSquared) - sReg"), "T7-friction"),
         Variant("friction inner arm", F, sub("sPerpSquared / (2*sReg)", "sPerpSquared / sReg"), "T7-friction"),
         Variant("friction switch", F, sub("sPerpSquared <= sReg*sReg", "sPerpSquared <= sReg"), "T7-friction"),
+        Variant("friction precedence slip in a refactored body", F, _replace_def(FRI, _B_FRICTION_PRECEDENCE), "T7-friction"),
         Variant("smooth_linear end cap", M, sub("1.0-l-0.5*(1.0-xi)*(1.0-xi)/l", "1.0-0.5*(1.0-xi)*(1.0-xi)/l"), "T7-smooth_linear"),
         Variant("smooth_linear middle", M, sub("xi-0.5*l)", "xi-l)"), "T7-smooth_linear"),
         Variant("smooth_linear switch", M, sub("jnp.where(xi > 1.0-l,", "jnp.where(xi > 1.0-2*l,"), "T7-smooth_linear"),
-        Variant("smoothing width carries the mirror sign", "optimism/contact/EdgeCpp.py", sub("    return sign*SmoothFunctions.min(sign*pd0, sign*pd1, tol)", "    return sign*SmoothFunctions.min(sign*pd0, sign*pd1, sign*tol)"), "T5-users"),
-        Variant("mirror sign on one argument only", "optimism/contact/EdgeCpp.py", sub("    return sign*SmoothFunctions.min(sign*pd0, sign*pd1, tol)", "    return sign*SmoothFunctions.min(sign*pd0, pd1, tol)"), "T5-users"),
+        Variant("smooth_linear wrong cap argument in a refactored body", M, _replace_def("smooth_linear", _B_SMOOTH_LINEAR_CAP), "T7-smooth_linear"),
+        Variant("smoothing width carries the mirror sign", E, sub(RET, "    return sign*SmoothFunctions.min(sign*pd0, sign*pd1, sign*tol)"), "T5-users"),
+        Variant("mirror sign on one argument only", E, sub(RET, "    return sign*SmoothFunctions.min(sign*pd0, pd1, tol)"), "T5-users"),
+        Variant("negative smoothing width", E, sub(RET, "    return sign*SmoothFunctions.min(sign*pd0, sign*pd1, -tol)"), "T5-users"),
+        Variant("hard min instead of the smoothed one", E, sub(RET, "    return sign*np.minimum(sign*pd0, sign*pd1)"), "T5-users"),
+        Variant("mirror sign in the width, inside an extracted helper", E, _replace_def("smooth_distance", _B_SMOOTH_DISTANCE_HELPER), "T5-users"),
+        Variant("min/max selection with a different pair", E, _replace_def("smooth_distance", _B_SMOOTH_DISTANCE_MINMAX), "T5-users"),
+        # ---- preserving
         Variant("reformat SmoothFunctions", S, reformat(), None),
         Variant("reformat Friction", F, reformat(), None),
         Variant("alpha-rename min_base", S, alpha_rename("min_base"), None),
         Variant("equivalent blend form", S, sub("(-0.25*(x+y-safeEps)**2 + x*y)/safeEps", "(x*y - (x+y-safeEps)*(x+y-safeEps)/4)/safeEps"), None),
         Variant("equivalent friction form", F, sub("sPerpSquared / (2*sReg)", "0.5*sPerpSquared/sReg"), None),
+        Variant("min_base: helper with keyword, minimum/maximum, two-sided band test, negated select", S, _replace_def("min_base", _P_MIN_BASE), None),
+        Variant("min_base: guard clauses, IfExp, annotated and augmented assignment", S, _replace_def("min_base", _P_MIN_BASE_GUARD), None),
+        Variant("min_base: band test on squares", S, _replace_def("min_base", _P_MIN_BASE_SQUARED_BAND), None),
+        Variant("max through min, abs through max with swapped arguments", S,
+                _chain(sub("    return -min_base(-x, -y, eps)", "    return -min(-x, -y, eps)"),
+                       sub("    return -min_base(-x, x, eps)", "    return max(-x, x, eps=eps)")), None),
+        Variant("zmax: nested where, closure helper, strict upper test", S, _replace_def("zmax", _P_ZMAX), None),
+        Variant("zmax: lax.cond with operands and thunks", S, _replace_def("zmax", _P_ZMAX_COND), None),
+        Variant("friction: unpacked record, dot, helpers, swapped select", F, _replace_def(FRI, _P_FRICTION), None),
+        Variant("friction: norm / sum of squares / indexed record", F, _replace_def(FRI, _P_FRICTION_NORM), None),
+        Variant("smooth_linear: select with lambda cap", M, _replace_def("smooth_linear", _P_SMOOTH_LINEAR), None),
+        Variant("smooth_distance: orientation / distance / mirrored-min helpers", E, _replace_def("smooth_distance", _P_SMOOTH_DISTANCE), None),
+        Variant("smooth_distance: min for one orientation, max for the other", E, _replace_def("smooth_distance", _P_SMOOTH_DISTANCE_MINMAX), None),
+        Variant("smooth_distance: keyword width and commuted factors", E, sub(RET, "    return SmoothFunctions.min(pd0*sign, eps=tol, y=pd1*sign)*sign"), None),
+        Variant("zmax as the smoothed maximum with zero", S, _replace_def("zmax", "def zmax(x, eps):\n    return max(x, 0.0, eps)\n"), None),
+        Variant("zmax as the smoothed maximum with zero, wrong width", S, _replace_def("zmax", "def zmax(x, eps):\n    return max(x, 0.0, 2*eps)\n"), "T7-zmax"),
+        Variant("numpy alias renamed", S, lambda src: src.replace("import jax.numpy as np", "import jax.numpy as jnp").replace("np.", "jnp.") if "import jax.numpy as np" in src else None, None),
+        Variant("min carries the body (sqrt-of-square band test, centred blend), min_base delegates", S, _swap_min_roles, None),
+        Variant("friction: array methods, einsum, lax.select, fractional power", F, _replace_def(FRI, _P_FRICTION_METHODS), None),
+        Variant("smooth_distance: smoothed min imported under an alias", E,
+                _chain(sub("from optimism import SmoothFunctions", "from optimism.SmoothFunctions import min as smooth_min"), sub(RET, "    return sign*smooth_min(sign*pd0, sign*pd1, tol)")), None),
+        Variant("smooth_distance: width as tolerance times a selected factor", E,
+                sub("    tol = np.where(crossN > 1e-14, crossN*smoothingTol, 0.0)", "    tol = smoothingTol*np.where(crossN > 1e-14, crossN, 0.0)"), None),
+        Variant("smooth_distance: sign fix through abs", E, sub("    sign = np.where(sign==0, 1.0, sign)", "    sign = np.where(np.abs(sign) > 0, sign, 1.0)"), None),
+        Variant("smooth_distance: clamped closest points inlined (piecewise distances)", E,
+                _replace_def("smooth_distance", _SD_INLINE.replace("ARG1", "orientation*pd1")), None),
+        Variant("smooth_distance: clamped closest points inlined, mirror sign on one argument only", E,
+                _replace_def("smooth_distance", _SD_INLINE.replace("ARG1", "pd1")), "T5-users"),
+        Variant("min / max bound to lambdas", S, _lambda_wrappers, None),
+        Variant("smooth_linear: jnp.piecewise with lambdas", M, _replace_def("smooth_linear", _P_SMOOTH_LINEAR_PIECEWISE), None),
+        Variant("friction: transposed self product", F, sub("sPerpSquared = sPerp@sPerp", "sPerpSquared = sPerp.T @ sPerp"), None),
+        Variant("min_base: selection by mask arithmetic", S,
+                sub("    return np.where(isInsideEps, (-0.25*(x+y-safeEps)**2 + x*y)/safeEps, justMin)",
+                    "    blend = (-0.25*(x+y-safeEps)**2 + x*y)/safeEps\n    return isInsideEps*blend + (1 - isInsideEps)*justMin"), None),
+        Variant("smooth_distance: orientation factor from a mask", E,
+                _chain(sub("    sign = -np.sign(a1+a2)\n", "    sign = 1.0 - 2.0*(a1+a2 > 0)\n"), sub("    sign = np.where(sign==0, 1.0, sign)\n", "")), None),
     ]
